@@ -189,6 +189,88 @@ def notifyAll (post : Dict K V) : List NotifierKind → Triple K V → List (See
     | .error e => [.failed e]
     | .ok (ev, t') => .event ev :: notifyAll post ns t'
 
+/-! ### `dict_event_factory` as a program (aliasing made explicit)
+
+The body of `dict_event_factory` is a straight-line program over the local names
+`removed` and `added`.  Each name either still refers to the argument object —
+which is shared with the notifiers called later — or has been rebound to a
+private copy.  A write through a name that still aliases the argument changes
+what later notifiers see.  `Generated/DictEvent.lean` carries the statement
+sequence read from the source; `Props/C06.lean` `C06_factory_source` checks it is
+`factoryBody`. -/
+
+inductive FStmt where
+  | copyRemoved          -- removed = removed.copy()
+  | updateRemoved        -- removed.update(changed)
+  | copyAdded            -- added = added.copy()
+  | mergeAdded           -- for key in changed: added[key] = trait_dict[key]
+  | ret                  -- return DictChangeEvent(object=trait_dict, added=added, removed=removed)
+  deriving Repr, DecidableEq
+
+def FStmt.name : FStmt → String
+  | .copyRemoved => "copy:removed"
+  | .updateRemoved => "update:removed:changed"
+  | .copyAdded => "copy:added"
+  | .mergeAdded => "merge:added"
+  | .ret => "return"
+
+/-- Interpreter state: the three argument objects, and the private copies the
+local names `removed` / `added` have been rebound to (`none` = still the argument). -/
+structure FState (K V : Type) where
+  shared : Triple K V
+  removedCopy : Option (Dict K V) := none
+  addedCopy : Option (Dict K V) := none
+
+def FState.removedVal (σ : FState K V) : Dict K V := σ.removedCopy.getD σ.shared.removed
+def FState.addedVal (σ : FState K V) : Dict K V := σ.addedCopy.getD σ.shared.added
+
+/-- Write through the local name `removed`. -/
+def FState.setRemoved (σ : FState K V) (d : Dict K V) : FState K V :=
+  match σ.removedCopy with
+  | some _ => { σ with removedCopy := some d }
+  | none => { σ with shared := { σ.shared with removed := d } }
+
+/-- Write through the local name `added`. -/
+def FState.setAdded (σ : FState K V) (d : Dict K V) : FState K V :=
+  match σ.addedCopy with
+  | some _ => { σ with addedCopy := some d }
+  | none => { σ with shared := { σ.shared with added := d } }
+
+/-- Run the statements; result = the event returned (`none`: fell off the end) and the final state. -/
+def execF (post : Dict K V) : List FStmt → FState K V → Except Exc (Option (DictChangeEvent K V) × FState K V)
+  | [], σ => .ok (none, σ)
+  | .copyRemoved :: r, σ => execF post r { σ with removedCopy := some σ.removedVal }
+  | .updateRemoved :: r, σ => execF post r (σ.setRemoved (update σ.removedVal σ.shared.changed))
+  | .copyAdded :: r, σ => execF post r { σ with addedCopy := some σ.addedVal }
+  | .mergeAdded :: r, σ =>
+    match mergeAdded post σ.shared.changed σ.addedVal with
+    | none => .error .keyError
+    | some a => execF post r (σ.setAdded a)
+  | .ret :: _, σ => .ok (some ⟨σ.removedVal, σ.addedVal⟩, σ)
+
+/-- The factory with body `body`: the event, and the argument objects as left behind. -/
+def dictEventFactoryProg (body : List FStmt) (post : Dict K V) (t : Triple K V) :
+    Except Exc (DictChangeEvent K V × Triple K V) :=
+  match execF post body { shared := t } with
+  | .error e => .error e
+  | .ok (none, _) => .error .attributeError      -- returned None: the consumer reads `.removed` of None
+  | .ok (some ev, σ) => .ok (ev, σ.shared)
+
+/-- The body of `dict_event_factory` in the pinned tree (_dict_change_event.py:74-82). -/
+def factoryBody : List FStmt := [.copyRemoved, .updateRemoved, .copyAdded, .mergeAdded, .ret]
+
+/-- The body before commit 98152b1 (finding F7): `added` is written without being copied. -/
+def factoryBodyPreFix : List FStmt := [.copyRemoved, .updateRemoved, .mergeAdded, .ret]
+
+/-- `notify` with observers running the factory program `body`. -/
+def notifyAllProg (body : List FStmt) (post : Dict K V) : List NotifierKind → Triple K V → List (Seen K V)
+  | [], _ => []
+  | .raw :: ns, t => .raw t :: notifyAllProg body post ns t
+  | .observer :: ns, t =>
+    match dictEventFactoryProg body post t with
+    | .error e => [.failed e]
+    | .ok (ev, t') => .event ev :: notifyAllProg body post ns t'
+
 /-! ### Histories -/
 
 /-- State after an operation: a failed operation leaves the contents as they
